@@ -92,6 +92,55 @@ const RichMetadata = `,"response_types_supported":["code","code id_token"],"resp
 	`"registration_endpoint":"http://disc2.idp.test/register","pushed_authorization_request_endpoint":"http://disc2.idp.test/par",` +
 	`"device_authorization_endpoint":"http://disc2.idp.test/device","check_session_iframe":"http://disc2.idp.test/check","service_documentation":"http://disc2.idp.test/doc"`
 
+// OddDiscoveryDocs is the deviation-bounded grammar of discovery documents: the honest document with ONE member
+// replaced by an odd value (endpoints the URL parser rejects, relative, empty, with query/fragment, non-strings), and
+// a few documents that are odd as a whole. Index k is served by host disc-odd-<k>.idp.test.
+func OddDiscoveryDocs() []struct{ Name, Doc string } {
+	var out []struct{ Name, Doc string }
+	members := []string{"issuer", "authorization_endpoint", "token_endpoint", "jwks_uri", "end_session_endpoint"}
+	values := []string{`"http://h.test/p%zz?x=1"`, `"http://h.test:https/authorize?x=1"`, "\"http://h.test/a\\u007f?x=1\"", `""`, `"::"`, `"?"`, `"#"`, `"?x=1"`,
+		`"http://h.test/auth?x=1#frag"`, `"/relative?x=1"`, `"HTTP://UPPER.TEST/Auth?"`, `"http://[::1]:99999/a?b"`, `"http://h.test/a b?c d"`, `"mailto:a@b?x"`,
+		`null`, `7`, `true`, `[]`, `{}`, `["http://h.test/a"]`}
+	for _, m := range members {
+		for vi, v := range values {
+			k := len(out)
+			base := fmt.Sprintf("http://disc-odd-%d.idp.test", k)
+			def := map[string]string{"issuer": `"` + base + `"`, "authorization_endpoint": `"` + base + `/auth"`, "token_endpoint": `"` + base + `/token"`,
+				"jwks_uri": `"` + base + `/jwks"`, "end_session_endpoint": `"` + base + `/logout"`}
+			def[m] = v
+			doc := "{"
+			for i, mm := range members {
+				if i > 0 {
+					doc += ","
+				}
+				doc += `"` + mm + `":` + def[mm]
+			}
+			doc += "}"
+			out = append(out, struct{ Name, Doc string }{fmt.Sprintf("%s=#%d", m, vi), doc})
+		}
+	}
+	for _, whole := range []string{`null`, `[]`, `{`, ``, `"x"`, `{}`, `{"authorization_endpoint":"http://h.test/a"}`, `{"issuer":{"a":[1,{"b":null}]}}`} {
+		out = append(out, struct{ Name, Doc string }{"whole=" + whole, whole})
+	}
+	return out
+}
+
+// CannedDoc serves a fixed discovery document, the harness keys at /jwks, and refuses token requests.
+func CannedDoc(doc string) Responder {
+	jwks := []byte(JWKS(KeyEC, KeyRSA))
+	return func(r *http.Request, body []byte) (int, []byte) {
+		switch {
+		case strings.HasSuffix(r.URL.Path, "/.well-known/openid-configuration"):
+			return 200, []byte(doc)
+		case strings.HasSuffix(r.URL.Path, "/jwks"):
+			return 200, jwks
+		case strings.HasSuffix(r.URL.Path, "/token"):
+			return 400, []byte(`{"error":"invalid_grant"}`)
+		}
+		return 404, []byte(`{}`)
+	}
+}
+
 func CannedIdPDoc(base string, tokenAnswers map[string][]byte, rich bool) Responder {
 	extra := ""
 	if rich {
